@@ -26,6 +26,16 @@ func main() {
 	if len(os.Args) > 1 && os.Args[1] == "check" {
 		os.Exit(checkMain(os.Args[2:]))
 	}
+	if len(os.Args) > 1 && os.Args[1] == "genc18" {
+		src, n, err := genC18("/repo", 100000)
+		if err != nil {
+			fmt.Fprintln(os.Stderr, err)
+			os.Exit(2)
+		}
+		fmt.Fprintf(os.Stderr, "%d obligations\n", n)
+		os.Stdout.Write(src)
+		return
+	}
 	var (
 		repo    = flag.String("repo", "/repo", "repository root")
 		pkgPat  = flag.String("pkg", "./proxy", "package pattern relative to repo")
